@@ -3,7 +3,7 @@ import ast
 
 from ..model import AnalysisError, Model, walk_no_nested, norm_stmt, names_in
 from ..callgraph import CallGraph
-from .. import flow
+from .. import flow, siblings
 
 EXPLANATION = (
     'Decided: (R1) every encode/decode/encode_of/decode_of call whose receiver is a named child (bound by iterating or looking up a '
@@ -122,6 +122,7 @@ def check(ctx):
     ctx.rule('C12.R2', 'ErrorWithLocation: add_location appends, location_str reverses + joins with ".", __str__ prefixes the path')
     ctx.rule('C12.R3', 'data-keyed lookups on encode paths cannot leak KeyError (membership test or try/except KeyError -> EncodeError)')
     ctx.rule('C12.R4', 'raises on encode paths are EncodeError / ConstraintsError / NotImplementedError')
+    ctx.rule('C12.R5', 'the checkers and codecs decide member presence by `name in data`: a present member is always checked')
 
     # ---- R1
     n_wrapped = 0
@@ -153,6 +154,18 @@ def check(ctx):
     ctx.extra['wrapped_named_child_sites'] = n_wrapped
     if n_wrapped < 50 and not any(f.rule == 'C12.R1' for f in ctx.findings):
         raise AnalysisError('C12.R1 found only %d wrapped named-child call sites (floor 50)' % n_wrapped)
+
+    # ---- R5
+    encs = siblings.members_encoders(model, CODECS)
+    if len(encs) < 10:
+        raise AnalysisError('C12.R5 found only %d members encoders' % len(encs))
+    for f in encs:
+        bad = siblings.presence_violations(f)
+        ctx.instance('C12.R5', Model.qual(f), '`name in data`' if not bad else 'VIOLATION', node=f, file=f._mod.rel)
+        for node, why in bad:
+            ctx.violation('C12.R5', f._mod.rel, node, Model.qual(f),
+                          why + ': a member that is present with the value None (or another falsy value) is skipped, so an ill-typed None is not rejected by the '
+                          'type check and surfaces later as a foreign exception or as bytes', stmt='presence by value')
 
     # ---- R2
     INIT = 'asn1tools/codecs/__init__.py'
@@ -370,6 +383,20 @@ MUTANTS = [
         try:
             member.encode(data[1], encoded)""", expect='C12.R3'),
 ]
+MUTANTS.append(dict(name='type checker skips members whose value is None', file='asn1tools/codecs/type_checker.py',
+                    old="""        for member in self.members:
+            name = member.name
+
+            if name in data:
+                try:
+                    member.encode(data[name])""",
+                    new="""        for member in self.members:
+            name = member.name
+            value = data.get(name)
+
+            if value is not None:
+                try:
+                    member.encode(value)""", expect='C12.R5'))
 REFACTORS = [
     dict(name='bare raise instead of raise e', file=JER, quick=True,
          old="""                try:
